@@ -13,7 +13,7 @@ PROOF_MODULES = ['ChamProofs.Props.C12', 'ChamProofs.Props.C13Exact']
 THEOREMS = ['ChamVerif.keeps_evalT', 'ChamVerif.C12_token_set_when_value_raises', 'ChamVerif.C12_record',
             'ChamVerif.C12_base_exception_untouched', 'ChamVerif.C12_macro_records_then_reraises', 'ChamVerif.C12_records_order',
             'ChamVerif.C12_filler_records_failing_expression', 'ChamVerif.C12_handled_records_dropped',
-            'ChamVerif.locate_main', 'ChamVerif.locate_lib']
+            'ChamVerif.locate_main', 'ChamVerif.locate_lib', 'ChamVerif.C12_lib_record']
 LEVEL_TEXT = ('Proved in Lean: the TALES evaluator (python pipes, nested prefixes, string parts — all four mutually recursive functions) never '
               'clears __token (keeps_evalT, induction on the fuel over the mutual block), hence whenever evaluating an expression raises, '
               '__token holds an expression position (C12_token_set_when_value_raises); for an exception in the Exception hierarchy the record '
@@ -113,6 +113,9 @@ SITES = [
     ('<ul><li tal:repeat="i [1, 2]">${i} ${@E@}</li></ul>', 'inside repeat'),
     ('<p tal:replace="nope | @E@">x</p>', 'pipe alternative'),
     ('<p tal:content="string:a ${@E@} b">x</p>', 'string: part'),
+    ('<p tal:content="\n@E@\n">x</p>', 'expression on its own line: column 0'),
+    ('<p>${\n@E@\n}</p>', 'interpolated expression on its own line: column 0'),
+    ('<p>\n${@E@}</p>', 'interpolation at the start of a line'),
     ('<div metal:define-macro="mm"><b>${@E@}</b></div>', 'inside inline macro'),
     ('<div metal:define-macro="mm"><i tal:content="ok1"/><b tal:content="@E@"/></div>', 'inside inline macro after another expression'),
 ]
